@@ -22,9 +22,14 @@ impl From<BigUint> for Felt {
 pub open spec fn digits64(n: nat) -> Seq<u64> decreases n {
     if n == 0 { Seq::<u64>::empty() } else { seq![(n % 0x1_0000_0000_0000_0000) as u64] + digits64(n / 0x1_0000_0000_0000_0000) }
 }
+pub open spec fn digits32(n: nat) -> Seq<u32> decreases n {
+    if n == 0 { Seq::<u32>::empty() } else { seq![(n % 0x1_0000_0000) as u32] + digits32(n / 0x1_0000_0000) }
+}
 impl BigUint {
     #[verifier::external_body]
     pub fn to_u64_digits(&self) -> (r: Vec<u64>) ensures r@ == digits64(self.v@) { unimplemented!() }
+    #[verifier::external_body]
+    pub fn to_u32_digits(&self) -> (r: Vec<u32>) ensures r@ == digits32(self.v@) { unimplemented!() }
 }
 
 /// stand-in for `BTreeMap<String, u32>` (the parser's dynamic_params): only the values in key order are modelled
